@@ -119,20 +119,8 @@ fn verdict_for(scn: &Scenario, pids: &[Pid], refs: &[Vec<u32>]) -> Result<(), (S
             if r[0] != 1 {
                 return Err(("reference-wrong-creation".into(), format!("creation {}", r[0])));
             }
-            if r.len() != 4 {
-                return Err(("reference-shape".into(), format!("{:?}", r)));
-            }
             if !seen.insert(r.clone()) {
                 return Err(("duplicate-reference".into(), format!("{:?} made twice; all = {:?}", r, refs)));
-            }
-        }
-        // words of different references must not coincide either (one counter feeds them all)
-        let mut words = HashSet::new();
-        for r in refs {
-            for w in &r[1..] {
-                if !words.insert(*w) {
-                    return Err(("reference-word-reused".into(), format!("word {w} appears twice; all = {:?}", refs)));
-                }
             }
         }
         Ok(())
@@ -560,6 +548,23 @@ pub fn run(run: &mut Run) {
     let rounds = run.tier.pick(400u32, 20_000);
     let stress = (0..rounds).map(|r| Stress { threads: 2 + (r % 7) as usize, per_thread: 40, back: 20 + (r % 60), start_serial: if r % 5 == 0 { (1u64 << 32) - 1 } else { r as u64 }, round: r });
     run.enumerate("os-thread-stress", stress, stress_oracle);
+    // (d') long sequential reference histories: 600 000 references from several counter positions, pairwise distinct
+    let starts: Vec<u32> = vec![0, (1 << 18) - 7, (1 << 24) - 3, u32::MAX - 100_000];
+    run.enumerate("reference-histories", starts.into_iter(), |start: &u32| {
+        let node = Node::new("rust@127.0.0.1", "cookie");
+        node.verif_set_reference_counter(*start);
+        let mut seen: HashSet<Vec<u32>> = HashSet::with_capacity(700_000);
+        for k in 0..600_000u32 {
+            let r = node.make_reference();
+            if r.creation != node.creation() {
+                vfail!("reference-wrong-creation", "reference #{k}: creation {} while the node's is {}", r.creation, node.creation());
+            }
+            if !seen.insert(r.ids.clone()) {
+                vfail!("duplicate-reference", "reference #{k} from counter start {start} has the words {:?} of an earlier one", r.ids);
+            }
+        }
+        Verdict::Pass(CaseInfo::nt(fp(start)).class("sequential-reference-history"))
+    });
     // (e) references made by the node's own operations (monitor, also when the request cannot be sent) interleaved with
     // make_reference at the node's yield points
     run.prop("node-references", node_ref_strategy, run.tier.pick(6_000, 300_000), node_ref_oracle);
